@@ -18,8 +18,8 @@ INFO = dict(
         "User-Agent with a symbolic window and 0..3 continuation bytes before its NUL",
         thorough="<=3 records, lengths {0,1,2,3,4,6}",
     ),
-    outside="blocks with repeated indices (a configuration carries each setting once; with repeats the const/name and enum views merge "
-    "differently by construction); values longer than 6 bytes except in the User-Agent instances; more than 3 records",
+    outside="the mapping views of blocks with repeated indices (a configuration carries each setting once; with repeats the const/name "
+    "and enum views merge differently by construction — settings_tuple, setting_enums and max_setting_enum ARE checked with repeats); values longer than 6 bytes except in the User-Agent instances; more than 3 records",
     stubs=["dissect.cstruct Setting reader -> generated source interpreted, leaves modelled", "io.BytesIO -> pure model",
            "collections.OrderedDict / types.MappingProxyType -> association-list models with symbolic keys"],
     assumptions=["z3 decides QF_BV soundly"],
@@ -51,7 +51,7 @@ def be_int(cells):
     return v
 
 
-def build_block(ctx, lens, ending, idx_domain=None, tag=""):
+def build_block(ctx, lens, ending, idx_domain=None, tag="", distinct=True):
     recs = []
     data = []
     for i, L in enumerate(lens):
@@ -67,7 +67,8 @@ def build_block(ctx, lens, ending, idx_domain=None, tag=""):
         typ = sym_int("typ%d" % i, 0, 0xFFFF)
         val = sym_bytes("val%d" % i, L)
         for j, (pi, _, _) in enumerate(recs):
-            ctx.assume(compare("!=", idx, pi))
+            if distinct:
+                ctx.assume(compare("!=", idx, pi))
         recs.append((idx, typ, val))
         data += norm(u16(idx) + u16(typ)) + [L >> 8, L & 255] + val.cells
     if ending[0] == "term":
@@ -102,11 +103,11 @@ def items_of(m):
     return list(m.items())
 
 
-def h_tlv(lens, ending):
+def h_tlv(lens, ending, distinct=True):
     def body(ctx):
         if not is_native():
             install_models()
-        recs, block = build_block(ctx, lens, ending)
+        recs, block = build_block(ctx, lens, ending, distinct=distinct)
         cfg = call(BeaconConfig, V.unwrap(block) if is_native() else block)
         st = cfg.settings_tuple
         ctx.prove(len(st) == len(recs), "number of settings decoded == number of complete records (%d vs %d)" % (len(st), len(recs)))
@@ -122,6 +123,8 @@ def h_tlv(lens, ending):
                 ctx.prove(compare(">=", mx, idx), "max_setting_enum >= every index")
             ors = [V.tobool_expr(compare("==", mx, r[0])) for r in recs]
             ctx.prove(z3.Or(*[z3.BoolVal(o) if isinstance(o, bool) else o for o in ors]), "max_setting_enum is one of the indices")
+        if not distinct:
+            return  # with repeated indices only the per-record observables are claimed (the mappings merge by construction)
         # const-indexed views
         for parse in (True, False):
             m = call(I.getattr(cfg, "settings_map"), "const", False, parse)
@@ -278,6 +281,9 @@ def instances(tier):
                     continue
                 out.append(Instance("tlv lens=%s end=%s%d" % (list(lens), ending[0], ending[1]), h_tlv(lens, ending),
                                     dict(kind="tlv", lens=list(lens), ending=list(ending), cost=4 ** n)))
+    for lens in ((2, 2), (0, 4), (4, 2, 2)) if q else ((2, 2), (0, 4), (4, 2, 2), (1, 1, 1), (2, 0, 2)):
+        out.append(Instance("tlv repeated indices allowed lens=%s" % (list(lens),), h_tlv(lens, ("term", 1), distinct=False),
+                            dict(kind="tlv_dup", lens=list(lens), cost=50)))
     for n in (1, 2):
         for lens in itertools.product((0, 2, 4) if q else LENS, repeat=n):
             if n == 2 and q and lens[0] != lens[1]:
